@@ -113,6 +113,7 @@ func (iloc *itemLoc) Copy(src *itemLoc) {
 	// so (item, then loc) can never come out as (nil, nil); the other order
 	// can, when a Flush and an evicting reader run between the two reads.
 	item := src.item
+	verifYield(4)
 	iloc.loc = src.loc
 	iloc.item = item
 }
